@@ -72,8 +72,10 @@ Definition smsg_eqb (a b : smsg) : bool :=
   | SRoomDeleted, SRoomDeleted => true
   | SRoomlist k, SRoomlist k' => N.eqb k k'
   | SPart a, SPart a' => N.eqb a a'
+  | SPartL a r l, SPartL a' r' l' => N.eqb a a' && N.eqb r r' && list_eqb N.eqb l l'
   | SFlags s f, SFlags s' f' => N.eqb s s' && N.eqb f f'
   | STransient k key, STransient k' key' => N.eqb k k' && N.eqb key key'
+  | SDialout r, SDialout r' => N.eqb r r'
   | SOther k, SOther k' => N.eqb k k'
   | _, _ => false
   end.
@@ -96,7 +98,7 @@ Definition canon (m : smsg) : smsg :=
   end.
 
 (* participants updates are not modelled in detail: excluded on both sides *)
-Definition compared (m : smsg) : bool := match m with SPart _ => false | _ => true end.
+Definition compared (m : smsg) : bool := match m with SPart _ | SPartL _ _ _ => false | _ => true end.
 
 Definition msgs_for (c : N) (outs : list out) : list smsg :=
   flat_map (fun o => match o with ToConn c' m => if N.eqb c c' && compared m then [canon m] else [] | _ => [] end) outs.
@@ -150,6 +152,18 @@ Definition obs_match_unordered (o : obs) (outs : list out) : bool :=
   && mset_eqb N.eqb o.(o_closed) (closed_of outs)
   && mset_eqb breq_eqb o.(o_breqs) (breqs_of outs)
   && mset_eqb mcuev_eqb o.(o_mcu) (mcu_of outs).
+
+(* The same holds for a disinvite that ends several sessions at once (a user with two sessions in the room, or
+   several listed sessions): each is closed by a goroutine of its own once the notice is written (client.go: `go
+   session.Close()`), so the order of the leave notices the others get is not determined either. *)
+Definition unordered_op (o : op) : bool :=
+  match o with OTick _ | OApi _ _ _ (ADisinvite _ _) => true | _ => false end.
+
+(* More generally: a step that ends two or more sessions (an internal client and its virtual sessions - closed by
+   a goroutine that walks a map, clientsession.go closeAndWait -, a kick that takes virtual sessions along) writes
+   their leave notices in an order the server does not determine. *)
+Definition ends_several (h h' : hub) : bool :=
+  match filter (fun e => negb (ahas h'.(h_sessions) (fst e))) h.(h_sessions) with _ :: _ :: _ => true | _ => false end.
 
 (* ---- digest of the model state ---- *)
 Definition pending_len (l : list smsg) : N := N.of_nat (length (filter compared l)).
@@ -258,7 +272,7 @@ Fixpoint first_diff (mode : N) (i : N) (h : hub) (tr : trace) : option (N * N) :
   | (o, ob, dg) :: r =>
       match is_wfail h o with Some _ => None | None =>
       let '(h', outs) := sem_step mode h o in
-      if negb (match o with OTick _ => obs_match_unordered ob outs | _ => obs_match ob outs end) then Some (i, 1)
+      if negb (if unordered_op o || ends_several h h' then obs_match_unordered ob outs else obs_match ob outs) then Some (i, 1)
       else if negb (digest_match dg (digest_of h')) then Some (i, 100 + digest_diff dg (digest_of h'))
       else first_diff mode (i + 1) h' r
       end
